@@ -216,6 +216,21 @@ func Bodies() []*Body {
 		}
 		return Dump(influxql.CloneExpr(e.Sel.Condition)) + e.Sel.Fields.String() + e.Sel.Sources.String() + e.Sel.Dimensions.String()
 	})
+	add("Reduce of the shared expressions", true, func(e *Env) string {
+		if e.Sel == nil {
+			return ""
+		}
+		// the package-level Reduce takes the shared nodes themselves, not a clone
+		v := &influxql.NowValuer{Now: clock}
+		out := Dump(influxql.Reduce(e.Sel.Condition, v))
+		for _, f := range e.Sel.Fields {
+			out += Dump(influxql.Reduce(f.Expr, v))
+		}
+		for _, d := range e.Sel.Dimensions {
+			out += Dump(influxql.Reduce(d.Expr, nil))
+		}
+		return out
+	})
 	// controls: not in the shared set, must be flagged
 	ctl("control:GroupByInterval", func(e *Env) string {
 		if e.Sel == nil {
